@@ -238,6 +238,19 @@ def _promo_rules(ctx):
         owner = [o for o in arith if o in br and any(x is c for s in br[o][1] for x in ast.walk(s))]
         ctx.ob("C01.R4", site, "get_common_type for %s is reached only after `lhs = self.promote(lhs)` and `rhs = self.promote(rhs)`" % (owner or "?"),
                ok, construct="promote-before-common:%s" % ",".join(owner), node=c)
+    # C11 6.5.15p5: the conditional operator's result type is the one the usual arithmetic conversions give for its 2nd and 3rd operand
+    tn = ctx.fn(S, "CSemantics.on_ternop")
+    tcfg = CFG(tn)
+    tg = [c for c in ast.walk(tn) if isinstance(c, ast.Call) and norm(c.func) == "self.get_common_type"]
+    ctx.need(len(tg) == 1, "on_ternop does not call get_common_type once")
+    st = tcfg.stmt_of(tg[0])
+    ok = [norm(a) for a in tg[0].args[:2]] == ["mid.typ", "rhs.typ"] and all(tcfg.must_pass(st, lambda n, v=v: is_promote(n, v)) for v in ("mid", "rhs"))
+    ctx.ob("C01.R4", S + ":CSemantics.on_ternop", "`c ? x : y`: the common type is taken after `mid = self.promote(..mid..)` and `rhs = self.promote(..rhs..)` (`b ? sc : uc` has type int, not unsigned char)", ok,
+           construct="promote-before-common:?:", node=tg[0])
+    # every use of get_common_type in the front-end is one of the reviewed ones
+    others = [(q, c) for q, f in ctx.project.module(S).defs.items() if isinstance(f, ast.FunctionDef) and q not in ("CSemantics.on_binop", "CSemantics.on_ternop", "CSemantics.get_common_type")
+              for c in walk_no_nested(f) if isinstance(c, ast.Call) and norm(c.func).endswith("get_common_type")]
+    ctx.ob("C01.R4", S, "get_common_type is only used by on_binop and on_ternop (each use checked above)", not others, construct="common-type-users", detail=", ".join(q for q, _ in others))
     for o in ("<<", ">>"):
         if o not in br:
             continue
